@@ -7,8 +7,11 @@ import sys
 import time
 
 VERIF = os.path.dirname(os.path.dirname(os.path.abspath(__file__)))
-EVIDENCE_DIR = os.path.join(VERIF, "evidence")
-REPLAY_DIR = os.path.join(VERIF, "replays")
+# VERIF_OUT redirects evidence and replay files (used when a check is pointed at a seeded-defect tree with
+# GASOL_REPO, so that the committed evidence always comes from runs against /repo itself)
+_OUT = os.environ.get("VERIF_OUT", VERIF)
+EVIDENCE_DIR = os.path.join(_OUT, "evidence")
+REPLAY_DIR = os.path.join(_OUT, "replays")
 KNOWN_FILE = os.path.join(VERIF, "known_findings.txt")
 
 
